@@ -483,7 +483,7 @@ class assert_is_instance(RuntimeAssertionFeedback):
 
     def condition(self, obj, cls):
         """ Tests if the left and right are equal """
-        value = cls.value
+        value = unwrap_value(cls.value)
         if value == int or value == float:
             value = (int, float)
         return not isinstance(obj.value, value)
@@ -502,7 +502,7 @@ class assert_not_is_instance(RuntimeAssertionFeedback):
 
     def condition(self, obj, cls):
         """ Tests if the left and right are equal """
-        value = cls.value
+        value = unwrap_value(cls.value)
         if value == int or value == float:
             value = (int, float)
         return isinstance(obj.value, value)
